@@ -202,7 +202,12 @@ def resolves (F : Fn α) (e : Env α) (conj disj : Option String) : Ante → Boo
 
 /-- what an antecedent is evaluated against, as the component model of C06 (`Lang.DegCtx`) expects it -/
 def degCtx (F : Fn α) (e : Env α) (conj disj : Option String) : Lang.DegCtx α :=
-  { enabled := fun v =>
+  { hasTerms := fun v =>
+      match e.outputs.find? (fun o => o.name == v), e.inputs.find? (fun i => i.name == v) with
+      | some ov, _ => !ov.terms.isEmpty
+      | none, some iv => !iv.terms.isEmpty
+      | none, none => false
+    enabled := fun v =>
       match e.outputs.find? (fun o => o.name == v), e.inputs.find? (fun i => i.name == v) with
       | some ov, _ => ov.enabled
       | none, some iv => iv.enabled
